@@ -83,6 +83,8 @@ def _enc_case(res, form, idx):
         res.violation("encode-wrong-mask", case,
                       f"weekdays_to_hexadecimal({form} {list(idx)}) = {out!r}, expected {exp!r}", exp, out)
     else:
+        if form == "set" and arg != {D[i] for i in idx}:
+            res.violation("encode-mutates-argument", case, f"weekdays_to_hexadecimal changed the set it was given: {arg!r}")
         # decode what was encoded: must give back the same set
         try:
             back = tools.bit_summary_to_days(int(out, 16))
@@ -130,6 +132,17 @@ def _dec_case(res, mask):
         if again != "%02x" % mask:
             res.violation("roundtrip-decode-encode", case, f"encode(decode({mask})) = {again!r}",
                           "%02x" % mask, again)
+        # what a caller does with its result must not change what the next caller gets
+        try:
+            out.symmetric_difference_update(set(D))
+            out2 = tools.bit_summary_to_days(mask)
+        except Exception as exc:  # noqa: BLE001
+            out2 = type(exc).__name__
+        if out2 != exp:
+            res.violation("decode-depends-on-earlier-caller", case,
+                          f"bit_summary_to_days({mask}) after an earlier caller modified its own result: "
+                          f"{sorted(d.name for d in out2) if isinstance(out2, (set, frozenset)) else out2}",
+                          sorted(d.name for d in exp), repr(out2))
 
 
 def _enum_case(res, i):
